@@ -74,3 +74,125 @@ def run(ctx):
                     cn = (call_name(c) or "").split(".")[-1]
                     if cn.endswith("Relocation"):
                         ctx.ob("C09.R2", "%s:%s" % (m.rel, cn), "relocation class %s returned by an instruction is registered with an isa (the linker looks it up by name)" % cn, cn in reg, construct="registered:" + cn)
+    _grammar_generator(ctx)
+
+
+def _grammar_generator(ctx):
+    """R3: the grammar generator consumes the same syntax declaration that Syntax.render prints"""
+    from ..core import last_name
+    from .. import sym
+    A = "ppci/binutils/assembler.py"
+    E = "ppci/arch/encoding.py"
+    ctx.rule("C09.R3", "the assembler grammar is generated from the same syntax elements that are printed: every printed literal becomes a keyword that may still be used as a label, operands map to constructor arguments in syntax order, the declared priority is handed to the parser, registers parse under their printed name", floor=12)
+    mod = ctx.project.module(A)
+    # the identifier regex shared by the lexer and the keyword-as-identifier escape
+    idre = mod.assignments("id_regex")
+    idm = mod.assignments("id_matcher")
+    ctx.need(idre and idm, "assembler.py: id_regex / id_matcher not found")
+    ctx.ob("C09.R3", A + ":id_matcher", "id_matcher is compiled from id_regex (the pattern of the lexer's ID token)", isinstance(idm[0], ast.Call) and norm(idm[0].func) == "re.compile" and norm(idm[0].args[0]) == "id_regex", construct="matcher-from-id-regex", detail=norm(idm[0]))
+    lex = ctx.fn(A, "AsmLexer.__init__")
+    idtok = [t for t in ast.walk(lex) if isinstance(t, ast.Tuple) and t.elts and isinstance(t.elts[0], ast.Constant) and t.elts[0].value == "ID"]
+    ctx.ob("C09.R3", A + ":AsmLexer.__init__", "the lexer's ID token uses id_regex and is classified by handle_id", len(idtok) == 1 and norm(idtok[0].elts[1]) == "id_regex" and norm(idtok[0].elts[2]) == "self.handle_id", construct="lexer-id")
+    hid = ctx.fn(A, "AsmLexer.handle_id")
+    ifs = [n for n in walk_no_nested(hid) if isinstance(n, ast.If)]
+    ok = len(ifs) == 1 and norm(ifs[0].test) in ("val.lower() in self.kws",) and any(isinstance(s, ast.Assign) and norm(s.targets[0]) == "typ" and norm(s.value) == "val.lower()" for s in ifs[0].body)
+    ctx.ob("C09.R3", A + ":AsmLexer.handle_id", "an identifier whose lower-case spelling is a keyword becomes that keyword token (syntax literals are lower case), otherwise it stays an ID", ok, construct="keyword-lookup-lower")
+    ak = ctx.fn(A, "BaseAssembler.add_keyword")
+    site = A + ":BaseAssembler.add_keyword"
+    esc = [c for c in calls_in(ak, "add_rule") if c.args and norm(c.args[0]) == "self.str_id"]
+    ctx.need(len(esc) == 1, "add_keyword: keyword-as-identifier rule not found")
+    cj = [(norm(e), pol) for e, pol in sym.conjuncts(esc[0], ak, {})]
+    guard = [t for t, pol in cj if pol and t.startswith("id_matcher.")]
+    ctx.ob("C09.R3", site, "every keyword the lexer would otherwise tokenise as ID (tested with id_matcher, i.e. letters, digits and underscore) also gets a `str_id -> keyword` rule, so a label spelled like a register or mnemonic (r12, l32i) still parses",
+           bool(guard) and all(t in ("id_matcher.match(keyword)", "id_matcher.fullmatch(keyword)") for t in guard) and all(t.startswith("id_matcher.") or t == "keyword not in self.lexer.kws" for t, pol in cj),
+           construct="keyword-as-label", node=esc[0], detail=str(cj))
+    ok = len(esc[0].args) >= 2 and norm(esc[0].args[1]) == "[keyword]"
+    ctx.ob("C09.R3", site, "the rule's right-hand side is the keyword itself", ok, construct="keyword-rule-rhs")
+    reg = [c for c in calls_in(ak) if norm(c.func) in ("self.parser.g.add_terminal", "self.lexer.add_keyword")]
+    ctx.ob("C09.R3", site, "a new keyword is registered with the grammar and with the lexer", len(reg) == 2 and all(norm(c.args[0]) == "keyword" for c in reg), construct="keyword-registered")
+    # generate_syntax_rule
+    gs = ctx.fn(A, "BaseAssembler.generate_syntax_rule")
+    site = A + ":BaseAssembler.generate_syntax_rule"
+    loops = [l for l in walk_no_nested(gs) if isinstance(l, ast.For) and "enumerate" in norm(l.iter)]
+    ok = False
+    if loops:
+        l = loops[0]
+        src = norm(l.iter)
+        tests = [n for n in ast.walk(l) if isinstance(n, ast.If)]
+        apps = [c for c in ast.walk(l) if isinstance(c, ast.Call) and last_name(c) == "append"]
+        idx = norm(l.target.elts[0]) if isinstance(l.target, ast.Tuple) else None
+        ok = src == "enumerate(stx.get_args())" and len(tests) == 1 and "Operand" in norm(tests[0].test) and len(apps) == 1 and norm(apps[0].args[0]) == idx
+    ctx.ob("C09.R3", site, "the positions of the Operand elements among the non-blank syntax elements are recorded, in order", ok, construct="operand-positions")
+    rh = [n for n in walk_no_nested(gs) if isinstance(n, ast.Assign) and norm(n.targets[0]) == "rhs"]
+    ctx.ob("C09.R3", site, "the rule's right-hand side is resolved from the same element sequence (stx.get_args())", len(rh) == 1 and norm(rh[0].value) == "self.resolve_rhs(stx.get_args())", construct="rhs-same-sequence")
+    inner = [f for f in ast.walk(gs) if isinstance(f, ast.FunctionDef) and f is not gs]
+    ok = False
+    if inner:
+        r = [n for n in ast.walk(inner[0]) if isinstance(n, ast.Return)]
+        env = sym.single_assign_env(inner[0])
+        ok = len(r) == 1 and norm(sym.deep_inline(r[0].value, env)) == "cls(*[args[idx] for idx in prop_list])"
+    ctx.ob("C09.R3", site, "the reduction constructs cls(*operands) with the parsed operands in syntax order", ok, construct="construct-in-order")
+    ar = [c for c in calls_in(gs, "add_rule")]
+    ok = len(ar) == 1 and len(ar[0].args) == 4 and norm(ar[0].args[0]) == "nt" and norm(ar[0].args[1]) == "rhs" and norm(ar[0].args[3]) == "stx.priority"
+    ctx.ob("C09.R3", site, "the rule is added under the requested non-terminal with the syntax's declared priority", ok, construct="priority-passed", detail=norm(ar[0]) if ar else "")
+    adr = ctx.fn(A, "BaseAssembler.add_rule")
+    ap = [c for c in calls_in(adr, "add_production")]
+    ok = len(ap) == 1 and any(k.arg == "priority" and norm(k.value) == "priority" for k in ap[0].keywords) and norm(ap[0].args[0]) == "lhs" and norm(ap[0].args[1]) == "rhs"
+    ctx.ob("C09.R3", A + ":BaseAssembler.add_rule", "add_rule forwards lhs, rhs and priority to the grammar", ok, construct="add-rule-forwards")
+    # resolve_rhs
+    rr = ctx.fn(A, "BaseAssembler.resolve_rhs")
+    site = A + ":BaseAssembler.resolve_rhs"
+    from ..tables import isinstance_branches
+    br = isinstance_branches(rr, "rhs_part")
+    ok = "str" in br and any(k.split(".")[-1] == "Operand" for k in br)
+    ctx.ob("C09.R3", site, "literal elements and Operand elements are both resolved; anything else is an error", ok and any(isinstance(n, ast.Raise) for n in ast.walk(rr)), construct="element-kinds", detail=str(sorted(br)))
+    if "str" in br:
+        body = br["str"][1]
+        apps = [c for s in body for c in ast.walk(s) if isinstance(c, ast.Call) and last_name(c) == "append"]
+        kws = [c for s in body for c in ast.walk(s) if isinstance(c, ast.Call) and last_name(c) == "add_keyword"]
+        ok = len(apps) == 1 and norm(apps[0].args[0]) == "rhs_part" and not sym.conjuncts(apps[0], rr, {})[:-1] and len(kws) == 1 and norm(kws[0].args[0]) == "rhs_part"
+        kcj = [(norm(e), pol) for e, pol in sym.conjuncts(kws[0], rr, {})] if kws else []
+        ok = ok and all(t in ("isinstance(rhs_part, str)", "rhs_part not in self.parser.g.nonterminals") for t, pol in kcj if pol)
+        ctx.ob("C09.R3", site, "a literal element is kept verbatim and registered as keyword unless it names a non-terminal", ok, construct="literal-keyword", detail=str(kcj))
+    opk = [k for k in br if k.split(".")[-1] == "Operand"]
+    if opk:
+        body = br[opk[0]][1]
+        apps = [c for s in body for c in ast.walk(s) if isinstance(c, ast.Call) and last_name(c) == "append"]
+        ok = len(apps) == 1 and norm(apps[0].args[0]) == "self.get_parameter_nt(rhs_part._cls)"
+        ctx.ob("C09.R3", site, "an operand element becomes the non-terminal of its declared class", ok, construct="operand-nonterminal")
+    # registers
+    gp = ctx.fn(A, "BaseAssembler.get_parameter_nt")
+    loops = [l for l in ast.walk(gp) if isinstance(l, ast.For) and norm(l.iter).endswith(".all_registers()")]
+    ok = len(loops) == 1 and any(isinstance(c, ast.Call) and last_name(c) == "make_register_rule_function" and norm(c.args[1]) == norm(loops[0].target) for c in ast.walk(loops[0]))
+    ctx.ob("C09.R3", A + ":BaseAssembler.get_parameter_nt", "a register-class operand gets one rule per register of the class", ok, construct="all-registers")
+    tl = [l for l in ast.walk(gp) if isinstance(l, ast.For) and norm(l.iter) == "arg_cls"]
+    ok = len(tl) == 1 and any(isinstance(c, ast.Call) and last_name(c) == "generate_syntax_rule" and norm(c.args[0]) == norm(tl[0].target) and norm(c.args[2]) == norm(tl[0].target) + ".syntax" for c in ast.walk(tl[0]))
+    ctx.ob("C09.R3", A + ":BaseAssembler.get_parameter_nt", "a constructor-tuple operand gets one rule per constructor, built from that constructor's syntax", ok, construct="all-constructors")
+    mr = ctx.fn(A, "BaseAssembler.make_register_rule_function")
+    site = A + ":BaseAssembler.make_register_rule_function"
+    ars = [c for c in calls_in(mr, "add_rule")]
+    spl = [norm(c.args[0]) for c in calls_in(mr, "split_text")]
+    inner = [f for f in ast.walk(mr) if isinstance(f, ast.FunctionDef) and f is not mr]
+    ok = len(ars) == 2 and "register.name" in spl and any(isinstance(l, ast.For) and norm(l.iter) == "register.aka" for l in ast.walk(mr)) and bool(inner) and \
+        any(isinstance(r, ast.Return) and norm(r.value) == "register" for r in ast.walk(inner[0])) and all(norm(c.args[0]) == "nt" and norm(c.args[2]) == inner[0].name for c in ars)
+    ctx.ob("C09.R3", site, "the printed name of a register (and each alias) parses to that very register", ok, construct="register-name-rule", detail=str(spl))
+    stt = ctx.fn(A, "BaseAssembler.split_text")
+    ctx.ob("C09.R3", A + ":BaseAssembler.split_text", "register names are split with the assembler's own lexer, in lower case (as keywords are matched)", "self.lexer.tokenize(txt.lower())" in norm(stt), construct="split-with-lexer")
+    ga = ctx.fn(A, "BaseAssembler.gen_asm_parser")
+    loops = [l for l in walk_no_nested(ga) if isinstance(l, ast.For) and norm(l.iter) == "isa.instructions"]
+    ok = len(loops) == 1 and any(isinstance(c, ast.Call) and last_name(c) == "generate_syntax_rule" and [norm(a) for a in c.args] == [norm(loops[0].target), "'instruction'", norm(loops[0].target) + ".syntax"] for c in ast.walk(loops[0]))
+    ctx.ob("C09.R3", A + ":BaseAssembler.gen_asm_parser", "every instruction of the isa that has a syntax gets an `instruction` rule built from that syntax", ok, construct="all-instructions")
+    # the printer
+    rn = ctx.fn(E, "Syntax.render")
+    gr = ctx.fn(E, "Syntax._get_repr")
+    ok = "for e in self.syntax" in norm(rn) and "''.join(" in norm(rn)
+    ctx.ob("C09.R3", E + ":Syntax.render", "render concatenates the representation of every element of the syntax, in order", ok, construct="render-all-elements")
+    br = isinstance_branches(gr, "syntax_element")
+    ok = "str" in br and any(isinstance(r, ast.Return) and norm(r.value) == "syntax_element" for s in br["str"][1] for r in ast.walk(s))
+    ctx.ob("C09.R3", E + ":Syntax._get_repr", "a literal element is printed verbatim", ok, construct="render-literal")
+    opk = [k for k in br if k.split(".")[-1] == "Operand"]
+    ok = bool(opk) and any(isinstance(r, ast.Return) and norm(r.value) == "str(syntax_element.__get__(obj))" for s in br[opk[0]][1] for r in ast.walk(s))
+    ctx.ob("C09.R3", E + ":Syntax._get_repr", "an operand element is printed as str() of the operand's value on the instruction", ok, construct="render-operand")
+    ga_ = ctx.fn(E, "Syntax.get_args")
+    ok = "isspace()" in norm(ga_) and any(isinstance(n, ast.Yield) for n in ast.walk(ga_)) and "for element in self.syntax" in norm(ga_)
+    ctx.ob("C09.R3", E + ":Syntax.get_args", "only blank literals are dropped from the element sequence the grammar is built from", ok, construct="get-args-drops-blank-only")
